@@ -127,9 +127,18 @@ def r3_isolation(ctx, prog):
     r = Rule("C16.R3", "each context owns a fresh signal; the parent is read once, untracked",
              "`a sub-context and its parent never change each other's locale once created`", floor=5)
     from rules.common import msum
-    got = msum(prog, r"context::init_context_inner$", closures=True)
+    from rules import localeeval, absint as _absint
+    decided_inner = True
+    try:
+        localeeval.check_inner(ctx, r, "R3")
+    except _absint.Unknown as u:
+        decided_inner = False
+        r.viol("R3:init_context_inner#undecided", "init_context_inner cannot be interpreted on the current code (%s): not decided on this tree (fail closed); MIR summaries follow" % str(u)[:300], file=C)
+    got = msum(prog, r"context::init_context_inner$", closures=True) if not decided_inner else None
     SIG = "RwSignal::new(GetUntracked::get_untracked(p2))"
-    if not got:
+    if decided_inner:
+        pass
+    elif not got:
         r.missing("init_context_inner")
     else:
         name, ret, eff = got[0]
@@ -172,8 +181,8 @@ def r3_isolation(ctx, prog):
             okr = all(re.match(r"^(I18nContext#I18nContext|I18nContext::\w+)\(RwSignal::new\(GetUntracked::get_untracked\(", x) for x in rets)
             what = "a context around `RwSignal::new(<initial>.get_untracked())` created in this call"
         else:
-            okr = all(re.match(r"^context::(init_subcontext_with_options|init_i18n_subcontext_with_options)\(", x) for x in rets)
-            what = "the result of init_subcontext_with_options"
+            okr = all(re.match(r"^context::(init_subcontext_with_options|init_i18n_subcontext_with_options|init_context_inner)\(", x) for x in rets)
+            what = "the result of init_subcontext_with_options (or, when that is inlined, of init_context_inner, which builds the new signal)"
         if okr and rets:
             r.inst("%s#returns" % nm, "%d path(s), each returns %s" % (len(ps), what))
         else:
